@@ -49,7 +49,17 @@ Qed.
 
 Lemma table_alias f a : In (f, a) aliases -> dget (upper a) m = dget (upper f) m.
 Proof.
-  destruct (load_spec rows aliases Hwf) as (m' & Hl & _ & Ha). rewrite Hload in Hl. inversion Hl; subst. apply Ha.
+  destruct (load_spec rows aliases Hwf) as (m' & Hl & _ & Ha). rewrite Hload in Hl. inversion Hl; subst.
+  intros Hin. apply (Ha f a Hin).
+Qed.
+
+(* at the level of S: an alias is known and has exactly the definitions of the group it names *)
+Lemma spec_alias_same f a : In (f, a) aliases ->
+  known rows aliases f = true /\ known rows aliases a = true /\ defs rows aliases a = defs rows aliases f.
+Proof.
+  intros Hin. destruct (load_spec rows aliases Hwf) as (m' & Hl & Hg & Ha). rewrite Hload in Hl. inversion Hl; subst.
+  destruct (Ha f a Hin) as [Heq Hk]. rewrite !Hg, Hk in Heq.
+  destruct (known rows aliases a); [|discriminate]. inversion Heq. repeat split; assumption.
 Qed.
 
 Lemma defs_wf g : wf_group (defs rows aliases g).
